@@ -379,3 +379,29 @@ def runP (algos : List String) : PState → List POp → Option PState
     | none => none
 
 end Params
+
+/-! ## the NAME of the parameter file (tools/files.py: is_valid_filename, as consulted by read_file) -/
+
+namespace Params
+
+def invalidChars : List Char := ['<', '>', ':', '"', '/', '\\', '|', '?', '*']
+
+/-- `is_valid_filename` on a system that is not Windows (the device names CON, NUL, … are tested
+only when `os.name == 'nt'`): not empty, none of the characters `<>:"/\|?*`, at most 255 characters -/
+def validFileName (n : String) : Bool :=
+  !n.toList.isEmpty && !(n.toList.any fun c => invalidChars.contains c) && decide (n.toList.length ≤ 255)
+
+/-- `read_file(name)` when the file exists with content `d` (`base` = `os.path.basename(name)`): a
+name that `is_valid_filename` refuses is answered with a warning only, and the object **keeps the
+values it had** -/
+def readNamed (algos : List String) (ps : List Entry) (base : String) (d : Doc) : Except Err (List Entry) :=
+  if validFileName base then importDocument algos ps d else .ok ps
+
+/-- `dump_file(name)` as coded: the name is not looked at (the file system decides) -/
+def dumpNamed (ps : List Entry) (_base : String) : Except Err Doc := .ok (generateDocument ps)
+
+/-- `dump_file(name)` repaired (proposed fix FC14-7): a name that `read_file` would not read is refused -/
+def dumpNamedFixed (ps : List Entry) (base : String) : Except Err Doc :=
+  if validFileName base then .ok (generateDocument ps) else .error .refused
+
+end Params
